@@ -88,6 +88,9 @@ def check(report: Report, repo: Repo) -> None:
     scenarios.append(("frozen parameters (tagged and allowed-untagged)", [p1, pu, p2], dict(lr=lr, weight_decay=wd, allow_non_unit_scaling_params=True), [(p1, lr, wd, {}), (pu, lr, wd, {}), (p2, lr, wd, {})]))
 
     p1, p2, p3, pu = mk()
+    # a one-shot iterable of groups that all bring their own lr, and no global lr
+    scenarios.append(("generator of groups, every group with its own lr, no global lr", OneShot([{"params": [p1], "lr": glr}, {"params": [p2, p3], "lr": glr, "weight_decay": gwd}]), dict(weight_decay=wd), [(p1, glr, wd, {}), (p2, glr, gwd, {}), (p3, glr, gwd, {})]))
+    p1, p2, p3, pu = mk()
     # inside one group an allowed untagged parameter precedes tagged ones: the input order is kept
     scenarios.append(("one group mixing untagged and tagged parameters", [{"params": [pu, p1, p3], "lr": glr}, {"params": [p2]}], dict(lr=lr, weight_decay=wd, allow_non_unit_scaling_params=True), [(pu, glr, wd, {}), (p1, glr, wd, {}), (p3, glr, wd, {}), (p2, lr, wd, {})]))
     p1, p2, p3, pu = mk()
